@@ -1101,6 +1101,19 @@ func (c *rowopsCtx) history(nops int) string {
 				desc = "r = CloneRow(r)"
 				op = "OClone"
 				newRow = jsonline.CloneRow(row)
+				// a clone and its source are two maps: a key added to one is not a key of the other, whichever is written first
+				// (the source is not used again by this history: the experiment is made on it and on a second clone)
+				side := jsonline.CloneRow(row)
+				nBefore := len(rowKeys(newRow))
+				side.Set("only-in-the-second-clone", 1)
+				row.Set("only-in-the-source", 2)
+				side.Set("again-in-the-second-clone", 3)
+				c.rep.OracleChecks["C06"]++
+				sk, ok := rowKeys(side), rowKeys(row)
+				if len(sk) != nBefore+2 || sk[nBefore] != "only-in-the-second-clone" || sk[nBefore+1] != "again-in-the-second-clone" || len(ok) != nBefore+1 || ok[nBefore] != "only-in-the-source" || len(rowKeys(newRow)) != nBefore {
+					c.violate("C06", fmt.Sprintf("after CloneRow, keys added to a clone and to its source get mixed up: clone %q, source %q, untouched clone %q", sk, ok, rowKeys(newRow)),
+						map[string]interface{}{"stream": "rowops", "history": strings.Join(append(append([]string{}, hist...), desc), " ; ")})
+				}
 			default:
 				k := genKey(r)
 				v := genScalar(r)
@@ -1114,6 +1127,7 @@ func (c *rowopsCtx) history(nops int) string {
 		hs := strings.Join(hist, " ; ")
 		if p {
 			c.violate("C17", "panic: "+msg, map[string]interface{}{"stream": "rowops", "history": hs, "call": desc})
+			c.violate("C06", "the operation panicked, so the value was not stored: "+msg, map[string]interface{}{"stream": "rowops", "history": hs, "call": desc})
 			c.rep.Outcomes["panic"]++
 			if op == "" {
 				return ""
